@@ -40,7 +40,8 @@ int g_rowminY, g_rowmaxY;
 #define POLY_INSERT_BASE(a, b, c, d) do { __CPROVER_assert((a) == this->minX && (b) == this->minY && (c) == this->maxX && (d) == this->maxY, "spec: the region inserted into the polygon set is the row itself, as rectangle_data(xl, yl, xh, yh)"); g_base = RECTDATA(a, b, c, d); g_base_set = 1; } while (0)
 #define POLY_INSERT_HOLE(a, b, c, d) do { __CPROVER_assert((a) == r.minX && (b) == r.minY && (c) == r.maxX && (d) == r.maxY, "spec: every obstacle is subtracted as rectangle_data(xl, yl, xh, yh)"); g_holes++; } while (0)
 RectData *verif_diff; int verif_diff_size;
-#define GET_RECTANGLES() do { __CPROVER_assert(g_base_set && g_holes == obstacles_size, "spec: the difference is taken after the row and ALL obstacles were inserted"); diff = verif_diff; diff_size = verif_diff_size; } while (0)
+enum { BPL_DEFAULT, BPL_VERTICAL, BPL_HORIZONTAL };
+#define GET_RECTANGLES(orient) do { __CPROVER_assert((orient) != BPL_HORIZONTAL, "spec C15: the assumed contract of get_rectangles (full-height slabs over obstruction-free columns) holds for vertical slicing only"); __CPROVER_assert(g_base_set && g_holes == obstacles_size, "spec: the difference is taken after the row and ALL obstacles were inserted"); diff = verif_diff; diff_size = verif_diff_size; } while (0)
 /* A(boost-rectangles), instantiated at one returned rectangle d */
 #define BOOST_RECT_OK(d) ((d).xl >= g_base.xl && (d).xh <= g_base.xh && (d).yl >= g_base.yl && (d).yh <= g_base.yh && (d).xl <= (d).xh && (d).yl <= (d).yh \
    && !((d).xl < g_obst.maxX && g_obst.minX < (d).xh && (d).yl < g_obst.maxY && g_obst.minY < (d).yh))
@@ -70,7 +71,9 @@ nloops = 2
 drop = [['std::vector<Row> ret;', '1'], ['bpl::polygon_90_set_data<int> row_set;', '1']]
 rewrites = [['row_set\.insert\(bpl::rectangle_data<int>\(([^;]*?)\),\s*true\);', 'POLY_INSERT_HOLE(\1);', '1+'],
             ['row_set\.insert\(bpl::rectangle_data<int>\(([^;]*?)\)\);', 'POLY_INSERT_BASE(\1);', '1+'],
-            ['std::vector<bpl::rectangle_data<int>\s*>\s*diff;\s*bpl::get_rectangles\(diff, row_set\);', 'RectData *diff; int diff_size; int ret_size = 0; GET_RECTANGLES();', '1'],
+            ['std::vector<bpl::rectangle_data<int>\s*>\s*diff;\s*bpl::get_rectangles\(diff, row_set\);', 'RectData *diff; int diff_size; int ret_size = 0; GET_RECTANGLES(BPL_DEFAULT);', '*'],
+            ['std::vector<bpl::rectangle_data<int>\s*>\s*diff;\s*bpl::get_rectangles\(diff, row_set,\s*bpl::(\w+)\);', 'RectData *diff; int diff_size; int ret_size = 0; GET_RECTANGLES(BPL_\1);', '*'],
+            ['GET_RECTANGLES\(BPL_\w+\);', '\g<0>', '1'],
             ['for \(const auto &r : diff\)', 'for (RectData r : diff)', '1'],
             ['Rectangle newRow\(([^;]*)\);', 'Rectangle newRow = Rectangle(\1);', '1'],
             ['bpl::(xl|xh|yl|yh)\(', 'bpl_\1(', '4+'],
@@ -118,7 +121,7 @@ __CPROVER_assigns(g_cell_pushed, g_pushed)
 file = "src/coloquinte.cpp"
 head = 'std::vector<Row> Circuit::computeRows\('
 slice_from = 'for \(int i = 0; i < nbCells\(\); \+\+i\) \{'
-slice_to = '// Use boost::polygon ro compute'
+slice_to = 'std::vector<Row> ret;'
 nloops = 1
 rewrites = [['obstacles\.emplace_back\(placement\(i\)\);', 'Circuit_placement(this, i); OBST_PUSH(i);', '1'], ['\bnbCells\(\)', 'Circuit_nbCells(this)', '1+'], ['\b(isFixed|isObstruction)\(', 'Circuit_\1(this, ', '*']]
 [[loops]]
